@@ -124,6 +124,10 @@ OVF_ALLOWED_READ = {
 }
 
 
+# how many sites carry a confirmed key on the tree the table was confirmed on (default 1)
+OVF_SITES = {("bbi::bigwigread::get_block_values", "Add", "u32", "chrom_start", "item_span"): 2}
+
+
 def _ovf_key(b, a):
     return (_short(b["fn"]), a["op"], a["ty"], a["l"], a["r"])
 
@@ -143,6 +147,21 @@ def _arith(ctx, res, FILES, OVF_ALLOWED, ROLE, WHERE, FLOOR):
     if m is None:
         return
     n = seen = 0
+    # confirmed sites are keyed by operand names; a local may be renamed without changing anything, so a site whose names are not listed is
+    # accepted when the function still has no MORE narrow overflow-checked sites of that (operator, type) than were confirmed for it
+    budget = {}
+    for k_ in OVF_ALLOWED:
+        budget[(k_[0], k_[1], k_[2])] = budget.get((k_[0], k_[1], k_[2]), 0) + (99 if k_[3] == "*" else OVF_SITES.get(k_, 1))
+    exact_used = {}
+    for b in m.bodies:
+        if m.rel(b["file"]) not in FILES:
+            continue
+        for a in b["asserts"]:
+            if a["kind"] == "Overflow" and a["ty"] in ("u32", "i32", "u16", "i16", "u8", "i8") and a["op"] in ("Add", "Mul", "Shl"):
+                k_ = _ovf_key(b, a)
+                if k_ in OVF_ALLOWED:
+                    exact_used[(k_[0], k_[1], k_[2])] = exact_used.get((k_[0], k_[1], k_[2]), 0) + 1
+    renamed_left = {g: max(0, budget[g] - exact_used.get(g, 0)) for g in budget}
     for b in m.bodies:
         f = m.rel(b["file"])
         if f not in FILES:
@@ -159,6 +178,11 @@ def _arith(ctx, res, FILES, OVF_ALLOWED, ROLE, WHERE, FLOOR):
             if ok:
                 res.ok(_site(m, b, a), "%s %s `%s` %s `%s`: %s" % (a["ty"], a["op"], a["l"], {"Add": "+", "Mul": "*", "Shl": "<<"}[a["op"]], a["r"],
                                                                   OVF_ALLOWED.get(k) or OVF_ALLOWED[(k[0], k[1], k[2], "*", k[4])]))
+                continue
+            g_ = (k[0], k[1], k[2])
+            if renamed_left.get(g_, 0) > 0 and not a["l"].startswith("const") and "." not in a["l"] and "." not in a["r"]:
+                renamed_left[g_] -= 1
+                res.ok(_site(m, b, a), "%s %s `%s` / `%s`: as many such sites in %s as were confirmed (operands renamed)" % (a["ty"], a["op"], a["l"], a["r"], k[0]))
                 continue
             res.fail("%s/%s/%s/%s/%s" % (ROLE, k[0], a["op"], a["l"], a["r"]), _site(m, b, a),
                      "%s %s of `%s` and `%s` can overflow: coordinates and resolutions range up to u32::MAX (panic with overflow checks; wrap-around otherwise, "
